@@ -14,8 +14,9 @@ Print Assumptions C02_loud_before_any_broken_future.
 
 (* ... and with the flag set every later submit raises *)
 Theorem C02_broken_pool_refuses :
-  forall p, user p = true -> broken p = true ->
-    pending (step p Submit) = pending p /\ refused (step p Submit) = S (refused p) /\ submitted (step p Submit) = submitted p.
+  forall p, user p = true -> sub p = None -> broken p = true ->
+    pending (step p Submit) = pending p /\ refused (step p Submit) = S (refused p) /\ submitted (step p Submit) = submitted p
+    /\ sub (step p Submit) = None.
 Proof. exact broken_pool_refuses. Qed.
 Print Assumptions C02_broken_pool_refuses.
 
@@ -23,7 +24,7 @@ Print Assumptions C02_broken_pool_refuses.
    future with that error, kills and reaps every worker, and ends -- whatever the flags, the table and the counts were *)
 Theorem C02_death_fails_everything_loudly :
   forall u sh k gs mx pr1 pr2 pn su okc fb fs rf,
-    let p := mkp u sh false k gs mx (pr1 ++ WDead :: pr2) pn su okc fb fs rf MLoop in
+    let p := mkp u sh false k gs mx (pr1 ++ WDead :: pr2) pn su okc fb fs rf MLoop None in
     let q := run broken_steps p in
     mgr q = MDone /\ broken q = true /\ pending q = 0 /\ procs q = [] /\ failB q = fb + pn /\ ok q = okc /\ failS q = fs.
 Proof. exact death_fails_everything_loudly. Qed.
@@ -41,7 +42,7 @@ Print Assumptions C02_manager_gone_means_all_settled.
 Theorem C02_refuted_with_resize :
   exists es, let p := run es (pool0 2) in mgr p = MDone /\ procs p <> [] /\ broken p = true.
 Proof.
-  exists [Submit; Crash 0; Detect; MgrOp; MgrOp; MgrOp; MgrOp; MgrOp; MgrOp; MgrOp; MgrOp; MgrOp; MgrOp; MgrOp; ResizeTopUp].
+  exists (submit_all ++ [Crash 0; Detect; MgrOp; MgrOp; MgrOp; MgrOp; MgrOp; MgrOp; MgrOp; MgrOp; MgrOp; MgrOp; MgrOp; ResizeTopUp]).
   vm_compute. repeat split; discriminate.
 Qed.
 Print Assumptions C02_refuted_with_resize.
